@@ -330,3 +330,177 @@ class Watchdog(object):
         signal.setitimer(signal.ITIMER_VIRTUAL, 0)
         signal.signal(signal.SIGVTALRM, self._old)
         return False
+
+
+# ------------------------------------------- module state (E3 histories)
+
+_CONTAINERS = (dict, list, set)
+_SCALARS = (int, float, str, bool, tuple, frozenset, type(None))
+_WRITE_ONLY = ('nCalls',)
+
+
+def _slots(mod):
+    """(owner namespace, owner label, name, value) for every module global
+    and every attribute of a class defined in the module that can carry
+    state from one call to the next"""
+    import types
+    for name, v in list(vars(mod).items()):
+        if name.startswith('__'):
+            continue
+        if isinstance(v, types.ModuleType) or callable(v) and \
+                not isinstance(v, type):
+            continue
+        if isinstance(v, type):
+            if getattr(v, '__module__', None) != mod.__name__:
+                continue
+            for an, av in list(vars(v).items()):
+                if an.startswith('__') or callable(av) or \
+                        isinstance(av, (property, classmethod, staticmethod)):
+                    continue
+                if isinstance(av, _CONTAINERS + _SCALARS):
+                    yield v, v.__name__, an, av
+            continue
+        if isinstance(v, _CONTAINERS + _SCALARS):
+            yield mod, '', name, v
+
+
+def state_snapshot(mod):
+    import copy
+    return [(owner, label, name, copy.copy(v) if isinstance(v, _CONTAINERS)
+             else v, v) for owner, label, name, v in _slots(mod)]
+
+
+def state_restore(mod, snap):
+    """put every state-carrying slot back to its pristine value (containers
+    in place, so references held elsewhere see it); slots that did not exist
+    in the pristine module are emptied"""
+    known = set()
+    for owner, label, name, saved, obj in snap:
+        known.add((label, name))
+        if isinstance(obj, dict):
+            obj.clear()
+            obj.update(saved)
+        elif isinstance(obj, list):
+            del obj[:]
+            obj.extend(saved)
+        elif isinstance(obj, set):
+            obj.clear()
+            obj.update(saved)
+        if isinstance(owner, type):
+            if vars(owner).get(name) is not obj:
+                setattr(owner, name, obj)
+        elif vars(owner).get(name) is not obj:
+            setattr(owner, name, obj)
+    for owner, label, name, v in list(_slots(mod)):
+        if (label, name) not in known and isinstance(v, _CONTAINERS):
+            v.clear()
+
+
+def _rep(v):
+    if isinstance(v, _SCALARS):
+        return repr(v)
+    return type(v).__name__
+
+
+def state_fingerprint(mod):
+    """hashable summary of everything a later call could read"""
+    out = []
+    for owner, label, name, v in _slots(mod):
+        if name in _WRITE_ONLY:
+            continue
+        if isinstance(v, dict):
+            body = tuple(sorted((repr(k), _rep(x)) for k, x in v.items()))
+        elif isinstance(v, set):
+            body = tuple(sorted(repr(x) for x in v))
+        elif isinstance(v, list):
+            body = tuple(_rep(x) for x in v)
+        else:
+            body = repr(v)
+        out.append((label, name, body))
+    return hash(tuple(sorted(out)))
+
+
+# ------------------------------------------------ wide sets (size limits)
+
+def orders_bounded(K, wpos):
+    """Deviation-bounded set of orders of K items (K! cannot be enumerated):
+    identity, reverse, every rotation, every single adjacent transposition,
+    and the item at index `wpos` moved to every position.  Returns a list of
+    (label, index list), duplicates removed."""
+    ident = list(range(K))
+    out = [('identity', ident), ('reverse', ident[::-1])]
+    for r in range(1, K):
+        out.append(('rotate%d' % r, ident[r:] + ident[:r]))
+    for i in range(K - 1):
+        p = list(ident)
+        p[i], p[i + 1] = p[i + 1], p[i]
+        out.append(('swap%d' % i, p))
+    rest = [i for i in ident if i != wpos]
+    for pos in range(K):
+        out.append(('widener@%d' % pos, rest[:pos] + [wpos] + rest[pos:]))
+    seen = set()
+    uniq = []
+    for label, p in out:
+        if tuple(p) not in seen:
+            seen.add(tuple(p))
+            uniq.append((label, p))
+    return uniq
+
+
+def _digits(n):
+    return [str(i) for i in range(n)]
+
+
+def _lower(n):
+    return [chr(97 + i) for i in range(n)]
+
+
+def _letdig(n):
+    return [chr(97 + i) + str(i % 10) for i in range(n)]
+
+
+def _hexl(n):
+    return list('0123456789abcdef')[:n]
+
+
+_PUNC_PLAIN = ['!', '#', '%', '&', ',', '/', ':', ';', '=', '@']
+_PUNC_SPECIAL = [']', '^', '-', '\\', '$', '*', '.', '(', '|', '+']
+
+# name -> (constant it straddles, largest K still inside, Ks, narrow value
+#          generator, widening values, templates)
+WIDE_FAMILIES = [
+    ('digits', 'max_strings_in_group', 11, (10, 11, 12, 13), _digits,
+     ['x', 'X', 'é'], ['{}', '#{}', '{}-z', 'id {}.']),
+    ('lower', 'max_strings_in_group', 11, (10, 11, 12, 13), _lower,
+     ['Q', '7', 'é'], ['{}', '#{}', '{}-z', 'id {}.']),
+    ('letter-digit', 'max_strings_in_group', 11, (10, 11, 12, 13), _letdig,
+     ['c', 'C3', '3c'], ['{}', '#{}', '{}-z']),
+    ('hex', 'max_strings_in_group', 11, (10, 11, 12, 13), _hexl,
+     ['g', 'G'], ['{}', '#{}', '{} z']),
+    ('punct', 'max_punc_in_group', 5, (4, 5, 6, 7),
+     lambda n: _PUNC_PLAIN[:n], ['?'], ['{}', 'a{}b', '{}1']),
+    ('punct-special', 'max_punc_in_group', 5, (4, 5, 6, 7),
+     lambda n: _PUNC_SPECIAL[:n], ['?', '_'], ['{}', 'a{}b']),
+    ('run-length', 'MAX_VRLE_RANGE', 3, (2, 3, 4, 5),
+     lambda n: ['a' * (i + 1) for i in range(n)], ['aaaaaaa', 'A'],
+     ['{}', 'x-{}', '{}.{}']),
+    ('run-length-punct', 'MAX_VRLE_RANGE', 3, (2, 3, 4, 5),
+     lambda n: ['-' * (i + 1) for i in range(n)], ['-------'],
+     ['{}', 'x{}y']),
+]
+
+
+def wide_examples(fam, K, widener, tpl):
+    name, const, lim, Ks, gen, wid, tpls = fam
+    vals = gen(K - 1) + [widener]
+    return [tpl.replace('{}', v) for v in vals]
+
+
+def long_string(R, tokens, ins=None):
+    """string with exactly R character-class runs, cycling `tokens`; `ins`
+    replaces the token in the middle (same class-run count if it is a run of
+    its own class)"""
+    parts = [tokens[i % len(tokens)] for i in range(R)]
+    if ins is not None:
+        parts[2 * (R // 4) + 1] = ins
+    return ''.join(parts)
